@@ -453,7 +453,8 @@ open MosnVerif.Model.TlsConnect MosnVerif.Gen.TlsConnect MosnVerif.Gen.TlsPolicy
 dials, the regenerated `tryConnect` (over the regenerated `clientContextManager.Conn` / `Fallback`) ends where the
 statement says, and opens exactly the connections the statement allows. -/
 theorem connect_meets_spec (c : Cfg) (hs : Hs) (d1 d2 : Bool) :
-    reached (connect c hs d1 d2) = specReached c hs d1 d2 ∧ (connect c hs d1 d2).dials = specDials c hs d1 := by
+    reached (connect c hs d1 d2) = specReached c hs d1 d2 ∧ (connect c hs d1 d2).dials = specDials c hs d1 ∧
+    ((connect c hs d1 d2).event = .connected ↔ specReached c hs d1 d2 ≠ .failed) := by
   cases c with | mk hm en fb =>
   cases hm <;> cases en <;> cases fb <;> cases hs <;> cases d1 <;> cases d2 <;> decide
 
